@@ -42,6 +42,14 @@ def TupleOf(*ts):
     return ("tuple", list(ts))
 
 
+IntSet = ("intset",)
+SeqInt = ("seq",)
+
+
+def GList(t):
+    return ("glist", t)
+
+
 def Opaque(tag):
     return ("opaque", tag)
 
@@ -72,7 +80,10 @@ class EnvSpec:
 class FuncContract:
     def __init__(self, qual, params=None, returns=None, requires=(), ensures=(), raises=(), raises_when=(), modifies=(),
                  cls=None, ensures_exc=(), inline=False, loops=None, check_invariant=True, ghost=None, self_fields=None, fresh_self=False,
-                 assume_invariant=True, props=(), result_is=None):
+                 assume_invariant=True, props=(), result_is=None, setup=None, rely=(), monitor_preserves=()):
+        self.rely = list(rely)                           # [(name, text over params+self)] re-assumed after every monitor havoc (stable under other threads)
+        self.monitor_preserves = list(monitor_preserves)   # [(name, int-valued text)] equal at release to its value at acquire
+        self.setup = setup                    # callable(eng, env): extra aliasing / ghost initialisation of the symbolic pre-state
         self.result_is = result_is            # text: the call returns exactly this (aliasing) expression of the post-state
         self.qual = qual
         self.params = dict(params or {})
@@ -192,10 +203,41 @@ def havoc_like(eng, val, base, ty=None, elem_ty=None):
         if mk is None and m.items:
             mk = lambda i, _s=m.items[0], _b=base: havoc_like(eng, _s, _b + "_elem")
         nm = ListModel(None, ln.t, mk, m.elem_facts, m.tag)
+        if m.seq is not None:
+            import z3 as _z3
+            n = eng.fresh_name(base + "_seq")
+            sq = _z3.Const(n, _z3.SeqSort(_z3.IntSort()))
+            eng.vars[n] = sq
+            nm.seq = sq
+            nm.length = _z3.Length(sq)
+            base_mk = mk
+
+            def mk2(i, _sq=sq, _mk=base_mk):
+                x = _mk(i) if _mk else pyvc.VOpaque("elem")
+                from .builtins_model import elem_id
+                try:
+                    eng.assume(elem_id(eng, x) == _sq[i])
+                except OutOfSubset:
+                    pass
+                return x
+            nm.make_elem = mk2
         eng.state.lists[val.lid] = nm        # same identity, new content
         return val
     if isinstance(val, VObj):
         return val
+    if isinstance(val, pyvc.VSet):
+        import z3 as _z3
+        arr = _z3.Array(eng.fresh_name(base + "_member"), _z3.IntSort(), _z3.BoolSort())
+        card = eng.fresh_int(base + "_card")
+        eng.assume(card.t >= 0)
+        eng.state.sets[val.sid] = (arr, card.t)
+        return val
+    if isinstance(val, pyvc.VSeq):
+        import z3 as _z3
+        n = eng.fresh_name(base)
+        c = _z3.Const(n, _z3.SeqSort(_z3.IntSort()))
+        eng.vars[n] = c
+        return pyvc.VSeq(c)
     if isinstance(val, pyvc.VDict):
         m = eng.state.dicts[val.did]
         mk = m.make_val
@@ -303,6 +345,8 @@ def verify_function(eng, con, label=None, setup=None, extra_checks=None):
                     for fname, fty in spec.fields.items():
                         eng.state.heap[(self_obj.oid, fname)] = eng.fresh_of_type(fty, "self." + fname)
             env["self"] = self_obj
+            eng.self_under_verification = self_obj
+        eng.entry_env = None
         for p in fn.args.args[1 if is_method else 0:] + fn.args.kwonlyargs:
             if p.arg in con.params:
                 env[p.arg] = eng.fresh_of_type(con.params[p.arg], p.arg)
@@ -318,6 +362,8 @@ def verify_function(eng, con, label=None, setup=None, extra_checks=None):
                     raise OutOfSubset("parameter %s of %s has no declared type" % (p, con.qual))
         if setup:
             setup(eng, env)
+        if con.setup:
+            con.setup(eng, env)
         if self_obj is not None and con.assume_invariant and not con.fresh_self:
             assume_class_invariants(eng, self_obj)
         eng.assuming = True
@@ -332,6 +378,7 @@ def verify_function(eng, con, label=None, setup=None, extra_checks=None):
         fr.depth = 0
         fr.old_state = old
         fr.entry_env = dict(env)
+        eng.entry_env = dict(env)
         outcome = ("normal", NONE)
         try:
             eng.exec_block(fn.body, fr)
